@@ -18,7 +18,9 @@ RULE = (
     "exactly one single strand / hairpin / loop strand; every Strand's sequence/structure equals the slice of the "
     "sequence / dot-bracket. Nothing more is demanded (empty-interior single strands are allowed). Non-trivial: "
     "structure with a multiloop-capable branching (>=3 stems), a one-nucleotide bulge, a length-1 stem or a "
-    "crossing; distinct = distinct (sequence, pair set)."
+    "crossing; distinct = distinct (sequence, pair set). Also the motif_extractor command line on BPSEQ / dot-bracket files "
+    "with every combination of --remove-isolated / --remove-pseudoknots: printed structure == expected reduced "
+    "structure, printed elements == library elements, reduced structure obeys the same oracle."
 )
 ASSUMPTIONS = [
     "interior of a strand = its positions other than its paired end nucleotides (5'/3' tails: other than the one paired end)",
@@ -138,6 +140,77 @@ def oracle(case) -> list:
     return out
 
 
+def oracle_cli(case):
+    """motif_extractor.main on a file: printed dot-bracket and element lines == library answers for the
+    (optionally reduced) structure, and the reduced structure obeys the decomposition oracle"""
+    import contextlib
+    import io
+    import os
+    import sys
+
+    import rnapolis.motif_extractor as me
+    from rnapolis.common import BpSeq
+    from rnaverif.runner import WORK_DIR
+
+    seq, pairs = case[0], [tuple(p) for p in case[1]]
+    opts = case[2]
+    text = ssref.bpseq_text(seq, pairs)
+    os.makedirs(WORK_DIR, exist_ok=True)
+    path = os.path.join(WORK_DIR, f"c07_{os.getpid()}.{'dbn' if opts.get('dbn') else 'bpseq'}")
+    b0 = BpSeq.from_string(text)
+    with open(path, "w") as f:
+        if opts.get("dbn"):
+            db = b0.dot_bracket
+            f.write((">strand\n" if opts.get("header") else "") + db.sequence + "\n" + db.structure + "\n")
+        else:
+            f.write(text + "\n")
+    argv = ["motif_extractor", "--dbn" if opts.get("dbn") else "--bpseq", path]
+    if opts.get("remove_isolated"):
+        argv.append("--remove-isolated")
+    if opts.get("remove_pseudoknots"):
+        argv.append("--remove-pseudoknots")
+    buf = io.StringIO()
+    old = sys.argv
+    try:
+        sys.argv = argv
+        with contextlib.redirect_stdout(buf):
+            me.main()
+    finally:
+        sys.argv = old
+        os.remove(path)
+    lines = buf.getvalue().split("\n")
+    out = []
+    # expected reduced structure (semantics of C12): isolated pairs first, then pseudoknots
+    cur = sorted(pairs)
+    if opts.get("remove_isolated"):
+        keep = []
+        for i, j, k in ssref.stems(cur):
+            if k >= 2:
+                keep += [(i + t, j - t) for t in range(k)]
+        cur = sorted(keep)
+    b = BpSeq.from_string(ssref.bpseq_text(seq, cur))
+    if opts.get("remove_pseudoknots"):
+        cur = sorted((i, j) for i, j, lev in ssref.decode(b.dot_bracket.structure) if lev == 0)
+        b = BpSeq.from_string(ssref.bpseq_text(seq, cur))
+    if len(lines) < 3 or lines[0] != "Full dot-bracket:" or lines[1] != seq:
+        return [D("C07:cli:header", f"unexpected output head {lines[:3]}")]
+    try:
+        got_pairs = sorted((i, j) for i, j, _ in ssref.decode(lines[2]))
+    except ssref.DecodeError as e:
+        return [D("C07:cli:dot-bracket-unbalanced", f"{lines[2]!r}: {e}")]
+    if got_pairs != cur:
+        out.append(D("C07:cli:wrong-structure", f"options {opts}: printed {lines[2]!r} encodes {got_pairs[:5]}, expected pairs {cur[:5]}"))
+        return out
+    want = [str(e) for part in b.elements for e in part]
+    got = [l for l in lines[3:] if l]
+    # the printed strands quote the dot-bracket the tool printed; compare structure-insensitively first
+    if len(got) != len(want) or [g.split()[0:3] for g in got] != [w.split()[0:3] for w in want]:
+        out.append(D("C07:cli:elements-differ-from-library", f"options {opts}: tool printed {got[:3]}, library gives {want[:3]}"))
+    sub = oracle((seq, cur))
+    out += [D(d.sig.replace("C07:", "C07:cli-reduced:"), d.what) for d in sub]
+    return out
+
+
 def classify(case):
     seq, pairs = case[0], case[1]
     st, g, comps = ssref.describe(seq, pairs)
@@ -175,6 +248,7 @@ def plan(tier, seed):
         specs.append({"kind": "exhaustive", "N": N, "slice": k, "of": K})
     for idx, (n, m) in enumerate(hyp):
         specs.append({"kind": "blowup", "examples": n, "max_abstract": m, "seed": seed * 1000 + idx})
+    specs.append({"kind": "cli", "examples": 250 if tier == "quick" else 3000, "seed": seed * 1000 + 900})
     return specs
 
 
@@ -198,10 +272,22 @@ def run_shard(spec) -> ShardResult:
         run_hypothesis(PROP_ID, ssref.st_structures(max_abstract=spec["max_abstract"]), oracle, seed=spec["seed"],
                        max_examples=spec["examples"], result=res, to_json=tj, classify=classify)
         res.exhaustive = False
+    elif spec["kind"] == "cli":
+        from hypothesis import strategies as st
+
+        opts = st.fixed_dictionaries({"dbn": st.booleans(), "header": st.booleans(), "remove_isolated": st.booleans(),
+                                      "remove_pseudoknots": st.booleans()})
+        strat = st.tuples(ssref.st_structures(max_abstract=6, max_stem=3), opts).map(lambda t: (t[0][0], t[0][1], t[1]))
+        run_hypothesis(PROP_ID, strat, oracle_cli, seed=spec["seed"], max_examples=spec["examples"], result=res,
+                       to_json=lambda c: [c[0], [list(p) for p in c[1]], c[2]],
+                       classify=lambda c: (classify((c[0], c[1]))[0], ["cli"] + [k for k, v in c[2].items() if v]))
+        res.exhaustive = False
     else:
         raise HarnessError(spec["kind"])
     return res
 
 
 def replay(case):
+    if len(case) == 3 and isinstance(case[2], dict):
+        return oracle_cli(case)
     return oracle(case)
